@@ -2,6 +2,11 @@
   Reference semantics ("ordinary LINQ / list semantics" + the executable Python expression subset)
   for query ASTs.  This is the meaning the properties C01 C02 C05 C06 C14 C17 C18 C19 refer to.
 
+  This file is the STRICT (eager list) reading: every operator evaluates all its elements, as Python's
+  own lists do.  Fadl/SemLazy.lean gives the deferred-execution reading (`Select` maps lazily, `First`
+  demands only the first element) that the chained-call simplifier relies on; on every expression the lazy
+  reading succeeds with the same value whenever the strict one does.
+
   Design: a *compositional denotation* `den w : Expr → Env → Except EErr Val` defined by plain
   structural recursion.  All the semantic content of a call lives in the non-recursive `callSem`
   which receives the denotations of the sub-terms (and, for arguments that are lambda literals,
@@ -16,6 +21,20 @@ import Fadl.Syntax
 import Fadl.Model.ToCalls
 namespace Fadl
 
+inductive EErr where
+  | unbound (x : String)
+  | type (what : String)
+  | index
+  | zeroDiv
+  | arity
+  | unsupported (what : String)
+  | world (what : String)
+  deriving Repr, DecidableEq, Inhabited
+
+/-- Values.  `poison e` only ever occurs as an ELEMENT of a sequence: it is an element whose
+    computation failed, under the deferred execution of LINQ-style operators (`Select` maps lazily,
+    `First` forces only the first element, `Count`/`Sum`/… and Python's own list constructions force
+    everything).  No name is ever bound to a poison value and no expression evaluates to one. -/
 inductive Val where
   | int (n : Int)
   | bool (b : Bool)
@@ -27,17 +46,8 @@ inductive Val where
   | dict (ks : List Val) (vs : List Val)
   | obj (cls : String) (fns : List String) (fvs : List Val)
   | slice (lo hi step : Option Int)
+  | poison (e : EErr)
   deriving Repr, Inhabited
-
-inductive EErr where
-  | unbound (x : String)
-  | type (what : String)
-  | index
-  | zeroDiv
-  | arity
-  | unsupported (what : String)
-  | world (what : String)
-  deriving Repr, DecidableEq, Inhabited
 
 abbrev Env := String → Option Val
 abbrev Res := Except EErr Val
@@ -69,6 +79,7 @@ def Val.beq : Val → Val → Bool
   | .dict ka va, .dict kb vb => Val.beqL ka kb && Val.beqL va vb
   | .obj c fn fv, .obj c' fn' fv' => c == c' && fn == fn' && Val.beqL fv fv'
   | .slice a b c, .slice a' b' c' => a == a' && b == b' && c == c'
+  | .poison a, .poison b => a == b
   | _, _ => false
 def Val.beqL : List Val → List Val → Bool
   | [], [] => true
@@ -98,10 +109,30 @@ def truthy : Val → Bool
   | .dict ks _ => !ks.isEmpty
   | .obj .. => true
   | .slice .. => true
+  | .poison _ => true
 
 def asSeq : Val → Except EErr (List Val)
   | .list vs => .ok vs
   | _ => .error (.type "sequence expected")
+
+/-- demand the value of a sequence element -/
+def force : Val → Res
+  | .poison e => .error e
+  | v => .ok v
+
+/-- demand every element (what `Count`, `Sum`, a Python list comprehension … do) -/
+def forceAll : List Val → Except EErr (List Val)
+  | [] => .ok []
+  | v :: vs => do
+    let x ← force v
+    let rest ← forceAll vs
+    pure (x :: rest)
+
+/-- an element of a lazily mapped sequence -/
+def lazyElem (r : Res) : Val :=
+  match r with
+  | .ok v => v
+  | .error e => .poison e
 
 def lookupKey (k : Val) : List Val → List Val → Option Val
   | k' :: ks, v :: vs => if pyEq k k' then some v else lookupKey k ks vs
